@@ -415,16 +415,10 @@ mod worker {
             ready_uni_wt_streams: &mpsc::Sender<StreamUniRemoteWT>,
         ) -> Result<(), DriverError> {
             trace!("H3 uni queue capacity: {}", ready_uni_h3_streams.capacity());
-            let h3_slot = ready_uni_h3_streams
-                .clone()
-                .reserve_owned()
-                .await
-                .expect("Receiver cannot be dropped");
 
-            let wt_slot = match ready_uni_wt_streams.clone().reserve_owned().await {
-                Ok(wt_slot) => wt_slot,
-                Err(mpsc::error::SendError(_)) => return Err(DriverError::NotConnected),
-            };
+            if ready_uni_wt_streams.is_closed() {
+                return Err(DriverError::NotConnected);
+            }
 
             let stream_quic = Stream::accept_uni(quic_connection)
                 .await
@@ -433,6 +427,11 @@ mod worker {
             let stream_id = stream_quic.id();
             debug!("New incoming uni stream ({})", stream_id);
 
+            let ready_uni_h3_streams = ready_uni_h3_streams.clone();
+            let ready_uni_wt_streams = ready_uni_wt_streams.clone();
+
+            // A queue slot is taken only once the stream type is known: a stream whose
+            // preamble never arrives must not keep later streams from being delivered.
             tokio::spawn(
                 async move {
                     let stream_h3 = match stream_quic.upgrade().await {
@@ -442,7 +441,9 @@ mod worker {
                             return;
                         }
                         Err(ProtoReadError::H3(error_code)) => {
-                            h3_slot.send(Err(DriverError::Proto(error_code)));
+                            let _ = ready_uni_h3_streams
+                                .send(Err(DriverError::Proto(error_code)))
+                                .await;
                             return;
                         }
                         Err(ProtoReadError::IO(_)) => {
@@ -455,9 +456,9 @@ mod worker {
 
                     if matches!(stream_kind, StreamKind::WebTransport) {
                         let stream_wt = stream_h3.upgrade();
-                        wt_slot.send(stream_wt);
+                        let _ = ready_uni_wt_streams.send(stream_wt).await;
                     } else {
-                        h3_slot.send(Ok(stream_h3));
+                        let _ = ready_uni_h3_streams.send(Ok(stream_h3)).await;
                     }
                 }
                 .instrument(debug_span!("Stream", "id={}", stream_id)),
@@ -474,16 +475,10 @@ mod worker {
             ready_bi_wt_streams: &mpsc::Sender<StreamBiRemoteWT>,
         ) -> Result<(), DriverError> {
             trace!("H3 bi queue capacity: {}", ready_bi_h3_streams.capacity());
-            let h3_slot = ready_bi_h3_streams
-                .clone()
-                .reserve_owned()
-                .await
-                .expect("Receiver cannot be dropped");
 
-            let wt_slot = match ready_bi_wt_streams.clone().reserve_owned().await {
-                Ok(wt_slot) => wt_slot,
-                Err(mpsc::error::SendError(_)) => return Err(DriverError::NotConnected),
-            };
+            if ready_bi_wt_streams.is_closed() {
+                return Err(DriverError::NotConnected);
+            }
 
             let stream_quic = Stream::accept_bi(quic_connection)
                 .await
@@ -492,6 +487,11 @@ mod worker {
             let stream_id = stream_quic.id();
             debug!("New incoming bi stream ({})", stream_id);
 
+            let ready_bi_h3_streams = ready_bi_h3_streams.clone();
+            let ready_bi_wt_streams = ready_bi_wt_streams.clone();
+
+            // A queue slot is taken only once the first frame is known: a stream whose
+            // first frame never arrives must not keep later streams from being delivered.
             tokio::spawn(
                 async move {
                     let mut stream_h3 = stream_quic.upgrade();
@@ -505,7 +505,9 @@ mod worker {
                                 }
                             }
                             Err(ProtoReadError::H3(error_code)) => {
-                                h3_slot.send(Err(DriverError::Proto(error_code)));
+                                let _ = ready_bi_h3_streams
+                                    .send(Err(DriverError::Proto(error_code)))
+                                    .await;
                                 return;
                             }
                             Err(ProtoReadError::IO(_)) => {
@@ -519,10 +521,10 @@ mod worker {
                     match frame.session_id() {
                         Some(session_id) => {
                             let stream_wt = stream_h3.upgrade(session_id);
-                            wt_slot.send(stream_wt);
+                            let _ = ready_bi_wt_streams.send(stream_wt).await;
                         }
                         None => {
-                            h3_slot.send(Ok((stream_h3, frame)));
+                            let _ = ready_bi_h3_streams.send(Ok((stream_h3, frame))).await;
                         }
                     }
                 }
